@@ -2,7 +2,7 @@
 C16 — helper lemmas: lawfulness predicates for the primitives a facade is built on, and the
 "advance = n single steps" induction.  Core Lean only.
 -/
-import DuneVerif.Model.C16
+import DuneVerif.Proofs.C16Gen
 
 namespace DV.C16
 
@@ -74,17 +74,95 @@ theorem advance_eq_steps {I : Type} (inc dec : I → I) (adv : I → Int → I)
     have : n = -((-n).toNat : Int) := by omega
     rw [← hneg (-n).toNat, ← this]
 
+/-- `advance` composes additively: `advance (advance i a) b = advance i (a + b)` follows from the recurrences -/
+theorem advance_add {I : Type} (inc dec : I → I) (adv : I → Int → I)
+    (h0 : ∀ i, adv i 0 = i)
+    (hs : ∀ i n, adv i (n + 1) = inc (adv i n))
+    (hp : ∀ i n, adv i (n - 1) = dec (adv i n))
+    (i : I) (a b : Int) : adv (adv i a) b = adv i (a + b) := by
+  have hnat : ∀ m : Nat, adv (adv i a) (m : Int) = adv i (a + m) := by
+    intro m
+    induction m with
+    | zero => simp [h0]
+    | succ m ih =>
+      have e1 : ((m + 1 : Nat) : Int) = (m : Int) + 1 := by omega
+      have e2 : a + ((m : Int) + 1) = (a + (m : Int)) + 1 := by omega
+      rw [e1, hs, ih, e2, hs]
+  have hneg : ∀ m : Nat, adv (adv i a) (-(m : Int)) = adv i (a + -(m : Int)) := by
+    intro m
+    induction m with
+    | zero => simp [h0]
+    | succ m ih =>
+      have e1 : (-((m + 1 : Nat) : Int)) = (-(m : Int)) - 1 := by omega
+      have e2 : a + (-(m : Int) - 1) = (a + -(m : Int)) - 1 := by omega
+      rw [e1, hp, ih, e2, hp]
+  by_cases hb : b ≥ 0
+  · have : b = (b.toNat : Int) := by omega
+    rw [this]; exact hnat _
+  · have : b = -((-b).toNat : Int) := by omega
+    rw [this]; exact hneg _
+
+/-- `inc` and `dec` are `advance` by `±1` -/
+theorem inc_eq_advance {I : Type} (inc : I → I) (adv : I → Int → I)
+    (h0 : ∀ i, adv i 0 = i) (hs : ∀ i n, adv i (n + 1) = inc (adv i n)) (i : I) : inc i = adv i 1 := by
+  have := hs i 0
+  rw [h0] at this
+  simpa using this.symm
+
+theorem dec_eq_advance {I : Type} (dec : I → I) (adv : I → Int → I)
+    (h0 : ∀ i, adv i 0 = i) (hp : ∀ i n, adv i (n - 1) = dec (adv i n)) (i : I) : dec i = adv i (-1) := by
+  have := hp i 0
+  rw [h0] at this
+  simpa using this.symm
+
+theorem deltaSum_cons (st : Step) (s : List Step) : deltaSum (st :: s) = st.delta + deltaSum s := by
+  unfold deltaSum
+  simp only [List.map_cons, List.foldl_cons]
+  have gen : ∀ (l : List Int) (x : Int), l.foldl (· + ·) x = x + l.foldl (· + ·) 0 := by
+    intro l
+    induction l with
+    | nil => intro x; simp
+    | cons y ys ih => intro x; simp only [List.foldl_cons]; rw [ih (x + y), ih (0 + y)]; omega
+  rw [gen]; omega
+
+/-- generic history lemma: if every stepping operator of `o` is `adv` by the step's displacement, a whole history is
+one `adv` by the net displacement -/
+theorem run_eq_advance {I : Type} (o : StepOps I) (adv : I → Int → I)
+    (h0 : ∀ i, adv i 0 = i)
+    (hadd : ∀ i a b, adv (adv i a) b = adv i (a + b))
+    (hstep : ∀ i (st : Step), o.apply i st = adv i st.delta)
+    (i : I) (s : List Step) : o.run i s = adv i (deltaSum s) := by
+  induction s generalizing i with
+  | nil => simp [StepOps.run, deltaSum, h0]
+  | cons st s ih =>
+    have : o.run i (st :: s) = o.run (o.apply i st) s := rfl
+    rw [this, ih, hstep, hadd, deltaSum_cons]
+
 theorem posCore_lawful : LawfulCore posCore It.pos (fun a b => a.cont = b.cont) where
-  inc_dec i := by cases i; simp [posCore]
-  dec_inc i := by cases i; simp [posCore]
-  adv_zero i := by cases i; simp [posCore]
-  adv_succ i n := by cases i; simp [posCore]; omega
-  adv_pred i n := by cases i; simp [posCore]; omega
-  pos_inc i := by simp [posCore]
-  pos_dec i := by simp [posCore]
-  pos_adv i n := by simp [posCore]
-  dist a b := by simp [posCore]
-  equals_iff a b h := by simp [posCore, h]
+  inc_dec i := by cases i; simp [posCore_increment, posCore_decrement]
+  dec_inc i := by cases i; simp [posCore_increment, posCore_decrement]
+  adv_zero i := by cases i; simp [posCore_advance]
+  adv_succ i n := by cases i; simp [posCore_advance, posCore_increment]; omega
+  adv_pred i n := by cases i; simp [posCore_advance, posCore_decrement]; omega
+  pos_inc i := by simp [posCore_increment]
+  pos_dec i := by simp [posCore_decrement]
+  pos_adv i n := by simp [posCore_advance]
+  dist a b := by simp [posCore_distanceTo]
+  equals_iff a b h := by simp [posCore_equals, h]
+  same_symm a b h := h.symm
+
+/-- the ArrayList iterators: `equals` does not look at the container, which is sound for iterators of one list -/
+theorem alCore_lawful : LawfulCore alCore It.pos (fun a b => a.cont = b.cont) where
+  inc_dec i := by cases i; simp [alCore_increment, alCore_decrement]
+  dec_inc i := by cases i; simp [alCore_increment, alCore_decrement]
+  adv_zero i := by cases i; simp [alCore_advance]
+  adv_succ i n := by cases i; simp [alCore_advance, alCore_increment]; omega
+  adv_pred i n := by cases i; simp [alCore_advance, alCore_decrement]; omega
+  pos_inc i := by simp [alCore_increment]
+  pos_dec i := by simp [alCore_decrement]
+  pos_adv i n := by simp [alCore_advance]
+  dist a b := by simp [alCore_distanceTo]
+  equals_iff a b _ := by simp [alCore_equals]
   same_symm a b h := h.symm
 
 theorem stdBase_lawful : LawfulBase stdBase It.pos (fun a b => a.cont = b.cont) where
@@ -100,27 +178,27 @@ theorem stdBase_lawful : LawfulBase stdBase It.pos (fun a b => a.cont = b.cont) 
   eq_iff l r h := by simp [stdBase, h]
 
 theorem irBase_lawful : LawfulBase irBase IR.value (fun _ _ => True) where
-  inc_dec i := by cases i; simp [irBase, IR.inc, IR.dec]
-  dec_inc i := by cases i; simp [irBase, IR.inc, IR.dec]
-  add_zero i := by cases i; simp [irBase, IR.addAssign]
-  add_succ i n := by cases i; simp [irBase, IR.addAssign, IR.inc]; omega
-  add_pred i n := by cases i; simp [irBase, IR.addAssign, IR.dec]; omega
-  pos_inc i := by simp [irBase, IR.inc]
-  pos_dec i := by simp [irBase, IR.dec]
-  pos_add i n := by simp [irBase, IR.addAssign]
-  sub_pos l r := by simp [irBase, IR.diff]
-  eq_iff l r _ := by simp [irBase, IR.eq]
+  inc_dec i := by cases i; simp [irBase, IR.inc_spec, IR.dec_spec]
+  dec_inc i := by cases i; simp [irBase, IR.inc_spec, IR.dec_spec]
+  add_zero i := by cases i; simp [irBase, IR.addAssign_spec]
+  add_succ i n := by cases i; simp [irBase, IR.addAssign_spec, IR.inc_spec]; omega
+  add_pred i n := by cases i; simp [irBase, IR.addAssign_spec, IR.dec_spec]; omega
+  pos_inc i := by simp [irBase, IR.inc_spec]
+  pos_dec i := by simp [irBase, IR.dec_spec]
+  pos_add i n := by simp [irBase, IR.addAssign_spec]
+  sub_pos l r := by simp [irBase, IR.diff_spec]
+  eq_iff l r _ := by simp [irBase, IR.eq_spec]
 
 theorem denseBase_lawful : LawfulBase denseBase It.pos (fun a b => a.cont = b.cont) where
-  inc_dec i := by cases i; simp [denseBase, Legacy.preInc, Legacy.preDec, posCore]
-  dec_inc i := by cases i; simp [denseBase, Legacy.preInc, Legacy.preDec, posCore]
-  add_zero i := by cases i; simp [denseBase, Legacy.addAssign, posCore]
-  add_succ i n := by cases i; simp [denseBase, Legacy.addAssign, Legacy.preInc, posCore]; omega
-  add_pred i n := by cases i; simp [denseBase, Legacy.addAssign, Legacy.preDec, posCore]; omega
-  pos_inc i := by simp [denseBase, Legacy.preInc, posCore]
-  pos_dec i := by simp [denseBase, Legacy.preDec, posCore]
-  pos_add i n := by simp [denseBase, Legacy.addAssign, posCore]
-  sub_pos l r := by simp [denseBase, Legacy.diff, posCore]; omega
-  eq_iff l r h := by simp [denseBase, Legacy.eq, posCore, h]
+  inc_dec i := by cases i; simp [denseBase, Legacy.preInc, Legacy.preDec, posCore_increment, posCore_decrement]
+  dec_inc i := by cases i; simp [denseBase, Legacy.preInc, Legacy.preDec, posCore_increment, posCore_decrement]
+  add_zero i := by cases i; simp [denseBase, Legacy.addAssign_spec, posCore_advance]
+  add_succ i n := by cases i; simp [denseBase, Legacy.addAssign_spec, Legacy.preInc, posCore_advance, posCore_increment]; omega
+  add_pred i n := by cases i; simp [denseBase, Legacy.addAssign_spec, Legacy.preDec, posCore_advance, posCore_decrement]; omega
+  pos_inc i := by simp [denseBase, Legacy.preInc, posCore_increment]
+  pos_dec i := by simp [denseBase, Legacy.preDec, posCore_decrement]
+  pos_add i n := by simp [denseBase, Legacy.addAssign_spec, posCore_advance]
+  sub_pos l r := by simp [denseBase, Legacy.diff_spec, posCore_distanceTo]; omega
+  eq_iff l r h := by simp [denseBase, Legacy.eq_spec, posCore_equals, h]
 
 end DV.C16
